@@ -181,7 +181,11 @@ const VERBS: [(&str, usize, &[&str]); 41] = [
 
 fn case_variants(v: &str) -> Vec<String> {
     let mixed: String = v.chars().enumerate().map(|(i, c)| if i % 2 == 0 { c.to_ascii_lowercase() } else { c }).collect();
-    vec![v.to_string(), v.to_ascii_lowercase(), mixed]
+    // capitalised ("Privmsg"), upper-case head + lower-case tail ("PRIvmsg"), alternating starting upper
+    let capital: String = v.chars().enumerate().map(|(i, c)| if i == 0 { c.to_ascii_uppercase() } else { c.to_ascii_lowercase() }).collect();
+    let head: String = v.chars().enumerate().map(|(i, c)| if i < v.len() / 2 { c.to_ascii_uppercase() } else { c.to_ascii_lowercase() }).collect();
+    let mixed2: String = v.chars().enumerate().map(|(i, c)| if i % 2 == 1 { c.to_ascii_lowercase() } else { c.to_ascii_uppercase() }).collect();
+    vec![v.to_string(), v.to_ascii_lowercase(), mixed, capital, head, mixed2]
 }
 
 #[derive(Debug, PartialEq, Eq, Clone, Copy)]
